@@ -64,9 +64,7 @@ func (r *runner) runBurst(steps []Step) {
 			all.Accepted = true
 			r.res.Triggers["accepted"]++
 		}
-		if out.Accepted || p.Step.Op == "comp_list" {
-			c.View.applyOwn(p.Req, got, p.RID)
-		}
+
 		if isDeferredOp(p.Step.Op) {
 			deferred = true
 			switch q := p.Req.(type) {
@@ -313,16 +311,37 @@ func (r *runner) runBlock(steps []Step) {
 		}
 	}
 
-	// try every order of the block against the model
+	// try every order of the block against the model: an order is consistent when every
+	// answer is admissible, the server's state equals the model's afterwards, and every member
+	// that stayed in its session throughout received exactly the relays that order implies.
 	type cand struct {
 		m     *Model
 		outs  []*Outcome
 		order []int
 		bad   []string
 		diffs int
+		relay string
 	}
 	var best *cand
 	var firstAnswerProblem string
+	better := func(a, b *cand) bool { // is a better than b
+		if b == nil {
+			return true
+		}
+		if (len(a.bad) == 0) != (len(b.bad) == 0) {
+			return len(a.bad) == 0
+		}
+		if len(a.bad) > 0 {
+			return len(a.bad) < len(b.bad)
+		}
+		if (a.diffs == 0) != (b.diffs == 0) {
+			return a.diffs == 0
+		}
+		if a.diffs != b.diffs {
+			return a.diffs < b.diffs
+		}
+		return a.relay == "" && b.relay != ""
+	}
 	perms := permutations(len(reqs))
 	if len(reqs) > 4 {
 		perms = perms[:24]
@@ -364,16 +383,14 @@ func (r *runner) runBlock(steps []Step) {
 			if firstAnswerProblem == "" {
 				firstAnswerProblem = fmt.Sprintf("order %v: %s", perm, strings.Join(cd.bad, " | "))
 			}
-			if best == nil || len(best.bad) > len(cd.bad) {
-				best = cd
-			}
-			continue
+		} else {
+			cd.diffs = len(r.serverDiffs(mc))
+			cd.relay = r.blockRelays(mc, cd.outs, reqs, before)
 		}
-		cd.diffs = len(r.serverDiffs(mc))
-		if best == nil || len(best.bad) > 0 || cd.diffs < best.diffs {
+		if better(cd, best) {
 			best = cd
 		}
-		if cd.diffs == 0 {
+		if len(cd.bad) == 0 && cd.diffs == 0 && cd.relay == "" {
 			break
 		}
 	}
@@ -396,13 +413,9 @@ func (r *runner) runBlock(steps []Step) {
 		}
 		return
 	}
-	// adopt the order that explains the server's state best
+	// adopt the order that explains the observations best
 	r.m = best.m
-	for i, o := range best.outs {
-		if o != nil && reqs[i].p != nil && (o.Accepted || reqs[i].st.Op == "comp_list") {
-			w := reqs[i].c.NonClock(reqs[i].c.Since())
-			reqs[i].c.View.applyOwn(reqs[i].p.Req, w, reqs[i].p.RID)
-		}
+	for _, o := range best.outs {
 		if o != nil {
 			r.res.Triggers["op:"+o.Kind]++
 			if o.Accepted {
@@ -410,9 +423,42 @@ func (r *runner) runBlock(steps []Step) {
 			}
 		}
 	}
-	// relays: exactly once at members that are in the session throughout the block
+	if best.diffs > 0 {
+		// The final state is not the result of any serial order (a check-then-act window in
+		// the server). No property quantified over schedules demands serializability of the
+		// state itself; what they demand (views = server state, exactly-once relays, no
+		// deadlock, ids) is checked below and by the other oracles. The model cannot follow
+		// the server from here, so the scenario ends after this block.
+		r.res.Stats["probe.block_not_serializable"]++
+		r.res.Triggers["block_not_serializable:"+strings.Join(kinds, "+")]++
+		r.desync = true
+	} else if best.relay != "" {
+		r.v("C02", "relay-count-concurrent", "concurrent block %v: %s", kinds, best.relay)
+		r.v("C09", "block-relay-mismatch", "concurrent block %v: %s", kinds, best.relay)
+	}
+	blk := &Outcome{Kind: "block"}
+	r.lastOut = blk
+	r.inBlock = true
+	r.checkState(blk)
+	r.inBlock = false
+	for i := range r.res.Violations {
+		v := &r.res.Violations[i]
+		if v.Step == r.stepIdx && !strings.Contains(v.Detail, "concurrent block") {
+			v.Detail = fmt.Sprintf("after concurrent block %v (order %v explains the answers): %s", kinds, best.order, v.Detail)
+		}
+	}
+	for _, q := range reqs {
+		if q.closes || q.c.Ended() {
+			r.checkEnded(q.c, "block")
+		}
+	}
+}
+
+// blockRelays checks exactly-once delivery at the members that are in their session throughout
+// the block, for one candidate order. It returns "" when everything matches.
+func (r *runner) blockRelays(m *Model, outs []*Outcome, reqs []*blockReq, before map[int]*MSession) string {
 	need := map[int][]Exp{}
-	for _, o := range best.outs {
+	for _, o := range outs {
 		if o == nil {
 			continue
 		}
@@ -425,7 +471,7 @@ func (r *runner) runBlock(steps []Step) {
 		if o.Ended() || o.reset {
 			continue
 		}
-		after := r.m.conn(ci).Session
+		after := m.conn(ci).Session
 		if before[ci] == nil || after == nil || before[ci].UUID != after.UUID {
 			continue // joined, left or switched during the block
 		}
@@ -443,30 +489,16 @@ func (r *runner) runBlock(steps []Step) {
 				own[a] = true
 			}
 		}
-		for _, m := range window {
-			if !own[m] {
-				relays = append(relays, m)
+		for _, x := range window {
+			if !own[x] {
+				relays = append(relays, x)
 			}
 		}
 		if d := matchMultiset(relays, filterExp(need[ci], r.dis)); d != "" {
-			r.v("C02", "relay-count-concurrent", "concurrent block %v, observer %s (member throughout): %s", kinds, o.Label, d)
-			r.v("C09", "block-relay-mismatch", "concurrent block %v, observer %s (member throughout): %s", kinds, o.Label, d)
+			return fmt.Sprintf("observer %s (member throughout): %s", o.Label, d)
 		}
 	}
-	blk := &Outcome{Kind: "block"}
-	r.lastOut = blk
-	r.checkState(blk)
-	for i := range r.res.Violations {
-		v := &r.res.Violations[i]
-		if v.Step == r.stepIdx && !strings.Contains(v.Detail, "concurrent block") {
-			v.Detail = fmt.Sprintf("after concurrent block %v (order %v explains the answers): %s", kinds, best.order, v.Detail)
-		}
-	}
-	for _, q := range reqs {
-		if q.closes || q.c.Ended() {
-			r.checkEnded(q.c, "block")
-		}
-	}
+	return ""
 }
 
 // matchMultiset: every required message exactly once, optional ones at most once, nothing else.
